@@ -394,6 +394,27 @@ def _pair2(chk):
                 ok = any(cn in want for cn in clearers)
                 chk.ob("PAIR-2", "self.%s is cleared by one of the tabled completion methods" % fld, ok, u.where(),
                        detail="clearers now: %s" % clearers, construct=u.ident, text="tabled clearer for self." + fld)
+    # a parked queue whose clear is guarded by the field's own truthiness must be forgotten once cleared:
+    # otherwise the next pass clears the same (already released) QueuedEvent again -> "Not locked"
+    for c in repo.all_classes():
+        for m in c.methods.values():
+            for x in ast.walk(m.node):
+                if isinstance(x, ast.Call) and call_attr(x) == "clear" and isinstance(x.func.value, ast.Attribute) and \
+                        dotted(x.func.value.value) == "self" and _queue_like(x.func.value.attr) and not x.args:
+                    fld = x.func.value.attr
+                    cfg = m.cfg()
+                    cn = [n for n in cfg.nodes if n.kind != "branch" and any(y is x for y in n.calls())]
+                    if not cn:
+                        continue
+                    g = cfg.guards_at(cn[0].id)
+                    if g.get("self." + fld) is True or g.get("self.%s is not None" % fld) is True:
+                        resets = [n.id for n in cfg.nodes_where(lambda n: n.kind == "stmt" and isinstance(n.ast, ast.Assign) and
+                                                                 any(src(t) == "self." + fld for t in n.ast.targets))]
+                        w = cfg.must_pass(cn[0].id, resets, ends=[cfg.exit.id])
+                        chk.analysed(m)
+                        chk.ob("PAIR-2", "%s forgets the parked queue self.%s once it cleared it" % (m.qualname, fld), bool(resets) and w is None,
+                               m.where(x), detail="the guard `if self.%s:` stays true: the next pass clears the released QueuedEvent again (AssertionError 'Not locked')" % fld,
+                               construct=m.ident, text="parked queue self.%s not reset after clear" % fld)
     chk.floor("PAIR-2", 12)
     # the two counting waits: nothing-to-wait-for branch clears immediately
     f = repo.func("mpf/core/mode_controller.py", "ModeController._ball_ending")
@@ -596,6 +617,7 @@ def battery():
         M("game end waits unconditionally", G, "        if self._stopping_modes:\n            queue.wait()\n            self._stopping_queue = queue", "        queue.wait()\n        self._stopping_queue = queue", "PAIR-2"),
         M("game end queue not stored", G, "            queue.wait()\n            self._stopping_queue = queue", "            queue.wait()", "PAIR-2"),
         M("wait queue never cleared", "mpf/core/mode.py", "            self._mode_start_wait_queue.clear()\n", "", "PAIR-2"),
+        M("wait queue cleared but kept", "mpf/core/mode.py", "            self._mode_start_wait_queue.clear()\n            self._mode_start_wait_queue = None", "            self._mode_start_wait_queue.clear()", "PAIR-2"),
         M("post_relay posts as queue", E, "self._post(event, 'relay', callback, **kwargs)", "self._post(event, 'queue', callback, **kwargs)", "TABLE-0"),
         M("dispatcher tests wrong token", E, "if event.type == \"queue\":", "if event.type == \"queued\":", "TABLE-0"),
         M("namedtuple field order swapped", E, "namedtuple(\"PostedEvent\", [\"event\", \"type\", \"callback\", \"kwargs\"])", "namedtuple(\"PostedEvent\", [\"event\", \"callback\", \"type\", \"kwargs\"])", "TABLE-0"),
